@@ -192,6 +192,7 @@ namespace
     std::map <int, res_ent> R;
     std::map <int, zw_stack *> O;
     std::map <int, std::string> O_render;
+    std::set <int> O_blind;	// kept, never rendered yet
 
     explicit state (plan const &pl) : p (pl) {}
   };
@@ -366,6 +367,8 @@ namespace
       }
     for (auto const &ent: st.O)
       {
+	if (st.O_blind.count (ent.first))
+	  continue;
 	std::string now = safe_render (ent.second);
 	if (now != st.O_render[ent.first])
 	  violation ("input-intact",
@@ -679,10 +682,59 @@ namespace
 	    touch = true;
 	  }
       }
+    else if (op == "EXECO")
+      {
+	// an output stack of one execution handed straight on as the input
+	// stack of another
+	int r = argi (s, 0), q = argi (s, 1), o = argi (s, 2);
+	if (st.R.count (r) || ! st.Q.count (q) || ! st.O.count (o))
+	  ev << " skip";
+	else
+	  {
+	    dwgrep_verif_tag = (unsigned long) r + 1;
+	    zw_result *res = call_checked <zw_result *>
+	      ("zw_query_execute", nullptr,
+	       [&] (zw_error **e) { return zw_query_execute (st.Q[q], st.O[o], e); },
+	       &failed, &msg);
+	    dwgrep_verif_tag = 0;
+	    if (failed)
+	      ev << " fail msg=" << hexenc (msg);
+	    else
+	      {
+		st.R[r] = {res, q, 0, false, false};
+		ev << " ok";
+	      }
+	    touch = true;
+	  }
+      }
+    else if (op == "VOCADD")
+      {
+	int v = argi (s, 0);
+	if (! st.VOC.count (v) || s.args.size () < 2)
+	  ev << " skip";
+	else
+	  {
+	    bool dw = s.args[1] == "dw";
+	    zw_vocabulary const *part = call_checked <zw_vocabulary const *>
+	      (dw ? "zw_vocabulary_dwarf" : "zw_vocabulary_core", nullptr,
+	       [&] (zw_error **e) { return dw ? zw_vocabulary_dwarf (e) : zw_vocabulary_core (e); },
+	       &failed, &msg);
+	    if (failed)
+	      violation ("setup", "zw_vocabulary_core/dwarf: " + msg);
+	    call_checked <bool> ("zw_vocabulary_add", false,
+				 [&] (zw_error **e) { return zw_vocabulary_add (st.VOC[v], part, e); },
+				 &failed, &msg);
+	    if (failed)
+	      ev << " fail msg=" << hexenc (msg);
+	    else
+	      ev << " ok";
+	  }
+      }
     else if (op == "PULL")
       {
 	int r = argi (s, 0);
 	int keep = s.args.size () >= 2 ? argi (s, 1) : -1;
+	bool blind = s.args.size () >= 3 && s.args[2] == "blind";
 	auto it = st.R.find (r);
 	if (it == st.R.end () || it->second.ended || it->second.failed
 	    || (keep >= 0 && st.O.count (keep)))
@@ -709,6 +761,13 @@ namespace
 	      {
 		it->second.ended = true;
 		ev << " end";
+	      }
+	    else if (blind && keep >= 0)
+	      {
+		// kept without so much as looking at it
+		ev << " stack";
+		st.O[keep] = out;
+		st.O_blind.insert (keep);
 	      }
 	    else
 	      {
@@ -787,6 +846,7 @@ namespace
 	    zw_stack_destroy (st.O[o]);
 	    st.O.erase (o);
 	    st.O_render.erase (o);
+	    st.O_blind.erase (o);
 	    ev << " ok";
 	    touch = true;
 	  }
@@ -798,7 +858,10 @@ namespace
 	  ev << " skip";
 	else
 	  {
-	    ev << " ok r=" << hexenc (safe_render (st.O[o]));
+	    std::string rend = safe_render (st.O[o]);
+	    ev << " ok r=" << hexenc (rend);
+	    if (st.O_blind.erase (o))
+	      st.O_render[o] = rend;
 	    touch = true;
 	  }
       }
